@@ -308,7 +308,11 @@ def gen_combinators(ch):
             return 'True'
         if k == 1:
             return 'False'
-        return mast.render(gen.predicate_term(ch, env, ch.int(1, 4), need_this=False))
+        m = gen.predicate_term(ch, env, ch.int(1, 4), need_this=False)
+        if ch.int(0, 2) == 0:
+            for _ in range(ch.int(1, 4)):  # chains of leading negations: negate() must respect their parity
+                m = ('un', 'not', m)
+        return mast.render(m)
 
     return {'p': one(), 'q': one(), 'this': schema, 'aliases': aliases}
 
